@@ -1,5 +1,5 @@
 From Coq Require Import ZArith List Bool QArith.
-From Coba Require Import Common.Sx C18.Model.
+From Coba Require Import Common.Sx C18.Model C18.ModelRemove.
 Import ListNotations.
 Open Scope Z_scope.
 
@@ -10,6 +10,8 @@ Definition run (x : sx) : sx :=
          let (n, d) := moving_average_nd (as_zs (a 1%nat)) (as_opt as_nat (a 2%nat)) w in
          L_ [of_zs n; of_zs d]
   | 1 => L_ (map of_q (moving_average_exp (map as_q (as_l (a 1%nat))) (as_q (a 2%nat))))
+  | 3 => let tri_of := fun e => (as_z (nth_sx 0 e), as_z (nth_sx 1 e), as_z (nth_sx 2 e)) in
+         L_ (map of_nat (remove (map tri_of (as_l (a 1%nat))) (map tri_of (as_l (a 2%nat))) (as_nat (a 3%nat))))
   | _ => let n := match as_z (nth_sx 0 (a 1%nat)) with 0 => NNone | 1 => NMin | _ => NK (as_nat (nth_sx 1 (a 1%nat))) end in
          let evs := map (fun e => {| pkey := as_z (nth_sx 0 e); lkey := as_z (nth_sx 1 e); eid := as_nat (nth_sx 2 e); elen := as_nat (nth_sx 3 e) |}) (as_l (a 3%nat)) in
          L_ (map (fun e => L_ [of_nat (eid e); of_nat (elen e)]) (filter_fin n (as_bool (a 2%nat)) evs))
